@@ -146,7 +146,7 @@ def lxml_level_class(case):
     from lxml import etree
     with no_gc():
         try:
-            root = Document(case["src"]).root if case["route"] == "parse" else build(tuple_tree(case["tree"]))
+            root = nsgen.make_root(case, lambda t: build(tuple_tree(t)))
             kind, table = nsgen.real_prefixes(root, mapping_of(case.get("mapping")))
             if kind != "ok":
                 return False
@@ -248,7 +248,7 @@ def observe(case):
     m = mapping_of(case["mapping"])
     with no_gc():
         try:
-            root = Document(case["src"]).root if case["route"] == "parse" else build(tuple_tree(case["tree"]))
+            root = nsgen.make_root(case, lambda t: build(tuple_tree(t)))
         except Exception:  # noqa: BLE001   (the parser / the API refuses the generated input: not a case)
             return None
         try:
@@ -292,6 +292,8 @@ def check_cases(ctx, cases):
     vals = ctx.coq_eval("c02", REQ, terms, chunk=120)
     for c, o, e in zip(cases, observed, plan):
         case = {"route": c["route"], "mapping": c["mapping"], "src": c.get("src"), "tree": c.get("tree")}
+        if c["route"] == "moved":
+            case.update(child=c["child"], at=c["at"])
         if o is None:
             ctx.count(1, "not-a-document")
             continue
@@ -404,6 +406,7 @@ def fixed_cases():
     out0 = [{"route": "parse", "src": '<p:r xmlns:p="%s" xmlns:q="a&amp;b" q:k="v"><p:a/><b/></p:r>' % amp.replace("&", "&amp;"),
              "mapping": mapping_json(m)} for m in (None, {"p": amp}, {None: amp}, {"z": "a&b"})]
     out = out0 + [{"route": "parse", "src": s, "mapping": mapping_json(m)} for s in srcs for m in maps]
+    out.append({"route": "moved", "src": '<x xmlns="d"/>', "child": '<b k="v"/>', "at": 0, "mapping": None})     # 13a
     out.append({"route": "parse", "src": '<r:root xmlns:r="u:r" xmlns:d="u:d"><d:item><plain/></d:item></r:root>',
                 "mapping": [["r", "u:r"], [None, "u:d"]]})
     api = [("tag", "", "r", [], [("text", "a"), ("text", "b"), ("tag", "u1", "x", [("u2", "k", 'v"<')], [])]),
@@ -412,14 +415,14 @@ def fixed_cases():
 
 
 def run(ctx, args):
-    ctx.regen(["GenWs.v", "GenNames.v", "GenNs.v"])
+    ctx.regen(["GenWs.v", "GenNames.v", "GenNs.v", "GenValidators.v"])
     ctx.build("Props/C02.vo")
     if args.replay:
         with open(args.replay) as f:
             rep = json.load(f)
         case = rep.get("case")
         if case:
-            check_cases(ctx, [{k: case.get(k) for k in ("route", "mapping", "src", "tree")}])
+            check_cases(ctx, [{k: case.get(k) for k in ("route", "mapping", "src", "tree", "child", "at") if k in case}])
         return ctx.finish("replay of " + args.replay, level="proof", replay_open=replay_open, explanation=EXPLANATION)
     quick = ctx.tier == "quick"
     cases = fixed_cases()
@@ -430,6 +433,8 @@ def run(ctx, args):
         if r < 0.08:
             src, mm = gen_redeclare_case(ctx.rng)
             cases.append({"route": "parse", "src": src, "mapping": mapping_json(mm)})
+        elif r < 0.16:
+            cases.append(dict(nsgen.gen_moved_case(ctx.rng), mapping=m))
         elif r < 0.55:
             cases.append({"route": "parse", "src": gen_src(ctx.rng, rich=True), "mapping": m})
         else:
@@ -441,13 +446,14 @@ def run(ctx, args):
              "PIs) or built through the API (any namespace on any element/attribute, adjacent text nodes, the same special "
              "strings un-escaped), depth <= 3; 10% of the API trees carry one of: empty text node, PI content with leading "
              "white space, '&' in a namespace URI, attribute named xmlns; mappings: None, {}, default, prefixes, clashing. "
-             "Every output is read by Document(), lxml and the Coq reference reader; two mutants per output (truncation, "
+             "8% are trees made by a move (a copy of one parsed document's root appended below an element of another: un-namespaced "
+             "nodes under a default namespace, finding 13a). Every output is read by Document(), lxml and the Coq reference reader; two mutants per output (truncation, "
              "swapped quote, stray < & >, deleted/duplicated character, inserted white space / CDATA / references) are read by "
              "the Coq reader and lxml. Non-trivial = special characters present, >= 2 namespaces, or a non-empty mapping.",
         level="proof", replay_open=replay_open, explanation=EXPLANATION)
 
 
-EXPLANATION = ("Proof: Props/C02.v C02_roundtrip (all well-formed trees without empty text nodes, all accepted caller mappings "
+EXPLANATION = ("Proof: Props/C02.v C02_roundtrip (all well-formed trees, all accepted caller mappings "
                "with NCName prefixes, all iteration orders) over the serializer model and the reference reader, rebuilt by this "
                "run. Correspondence: model vs TagNode.serialize byte for byte; reference reader vs lxml on outputs and mutants. "
                "Search: serialize -> {Document(), lxml, Coq reader} == original content model (presented names, merged text), "
